@@ -63,6 +63,14 @@ def run(prop, tier):
     chk.assumptions = ['the stop flags are only read at the poll point, so under sequential consistency the N+1 placements are all distinguishable schedules of one request',
                        'the lookahead engine never polls the flags (0 polls): stop requests are ignored there, which is allowed by the property (the correct answer is returned)',
                        'weak-memory effects and unsynchronised accesses are left to the ThreadSanitizer pass, which is free-running and not the deciding step']
+    # script level, through the real main(): global stop placed before every poll and withdrawn later (see script_task)
+    from . import families as F
+    runner.build('rel'); runner.harness('rel', 'osmt_worker')
+    fams = ['PROP', 'QF_UF', 'QF_LRA', 'QF_LIA', 'QF_IDL', 'QF_UFLRA'] if tier == 'quick' else list(F.LOGICS_MODELS) + ['QF_AX', 'QF_ALIA']
+    chk.run_stage('script level: assertion sets n<=2 of %d families, global stop before every poll, withdrawn after 1 / 2 polls / never' % len(fams), [(f, 2, (), s, 8) for f in fams for s in range(8)], script_task)
+    if tier == 'thorough':
+        for o in (('noincr',), ('picky',), ('ghost',), ('proofs',)):
+            chk.run_stage('script level, options %s' % (o,), [(f, 2, o, s, 8) for f in fams for s in range(8)], script_task)
     binary = runner.harness('rel', 'stopmc')
     res = N.run_shards(binary, ['run', tier], 16, 3000)
     N.absorb(chk, res, 'rel', replay_hint='build/rel/harness/stopmc replay <instance> <local|global> <k1> [k2 ..]')
@@ -86,15 +94,6 @@ def run(prop, tier):
         rec = {'symptom': 'data_race', 'site': site[:120], 'variant': 'tsan', 'cases': len(races), 'what': 'ThreadSanitizer reports %d race(s) while a second thread issues the stop request; first access: %s' % (len(races), site), 'logic': None, 'options': []}
         chk.violations.append((rec, p.stderr[:6000] + '\nreplay: build/tsan/harness/stopmc race %d %d' % (reps, nth), 'txt'))
     chk.bounds_done.append({'stage': 'free-running ThreadSanitizer pass: %d stopper thread(s) x %d delays per instance and flag' % (nth, reps)})
-    # script level, through the real main(): global stop placed before every poll and withdrawn later (see script_task)
-    from . import families as F
-    runner.harness('rel', 'osmt_worker')
-    fams = ['PROP', 'QF_UF', 'QF_LRA', 'QF_LIA', 'QF_IDL', 'QF_UFLRA'] if tier == 'quick' else list(F.LOGICS_MODELS) + ['QF_AX', 'QF_ALIA']
-    cov_before = chk.cov['executions']
-    chk.run_stage('script level: assertion sets n<=2 of %d families, global stop before every poll, withdrawn after 1 / 2 polls / never' % len(fams), [(f, 2, (), s, 8) for f in fams for s in range(8)], script_task)
-    if tier == 'thorough':
-        for o in (('noincr',), ('picky',), ('ghost',), ('proofs',)):
-            chk.run_stage('script level, options %s' % (o,), [(f, 2, o, s, 8) for f in fams for s in range(8)], script_task)
     chk.cov['executions'] = chk.cov['schedules']
     chk.cov['transitions'] = chk.cov['schedules']
     chk.cov['traces_validated'] = chk.cov['schedules']
